@@ -220,7 +220,23 @@ pub fn c16(run: &mut Run) -> Stats {
         })
         .reduce(Stats::default, Stats::merge);
     run.extra.push(("duplicate_name_family".into(), J::obj().set("patterns", J::u(fam.len() as u64)).set("evaluations", J::u(st2.get("evaluations")))));
-    st.merge(st2)
+    // the size-parameterised families with capture groups (17th group, 256 named groups, optional groups,
+    // groups under counts and long loops)
+    let scale: Vec<(String, &'static str, Vec<String>)> = sweep::scale_family(run.thorough()).into_iter().filter(|(p, _, _)| p.contains('(') && !p.contains("(?:q|")).collect();
+    let st3 = scale
+        .par_iter()
+        .fold(Stats::default, |mut st, (p, f, hs)| {
+            let pat: Vec<u32> = p.chars().map(|c| c as u32).collect();
+            let fl = Flags::parse(f);
+            if let Ok(ast) = crate::refparse::parse(&pat, fl) {
+                let hays: Vec<Hay> = hs.iter().map(|h| Hay::new(h.chars().map(|c| c as u32).collect())).collect();
+                c16_eval(&ast, fl, &hays, known, &mut st);
+            }
+            st
+        })
+        .reduce(Stats::default, Stats::merge);
+    run.extra.push(("size_parameterised_family".into(), J::obj().set("patterns", J::u(scale.len() as u64)).set("evaluations", J::u(st3.get("evaluations")))));
+    st.merge(st2).merge(st3)
 }
 
 // ---------------------------------------------------------------- C17
